@@ -264,6 +264,13 @@ pub fn build_bytes(m: &Item) -> Vec<u8> {
             crate::enc::vec8(&mut v, &m.b("body")[..m.b("body").len().min(255)]);
             v
         }
+        "server_hello_d18" => {
+            // always encoded with the draft-18 version (the only one the wire parser takes as this
+            // variant); build_message puts the item's version into the parsed value afterwards
+            let mut d = m.clone();
+            d.set("ver", crate::item::Val::Int(0x7f12));
+            crate::enc::tls_message(&d)
+        }
         _ => crate::enc::tls_message(m),
     }
 }
@@ -303,6 +310,13 @@ pub fn build_message<'a>(m: &'a Item, bytes: &'a [u8]) -> Option<TlsMessage<'a>>
         "appdata" => parse_tls_message_applicationdata(bytes).ok().map(|x| x.1),
         "heartbeat" => parse_tls_message_heartbeat(bytes, bytes.len().min(65535) as u16).ok().and_then(|(_, mut v)| v.pop()),
         "rawmsg" => None,
+        "server_hello_d18" => match parse_tls_message_handshake(bytes).ok().map(|x| x.1) {
+            Some(TlsMessage::Handshake(TlsMessageHandshake::ServerHelloV13Draft18(mut c))) => {
+                c.version = TlsVersion(m.u("ver") as u16);
+                hs(TlsMessageHandshake::ServerHelloV13Draft18(c))
+            }
+            other => other,
+        },
         _ => parse_tls_message_handshake(bytes).ok().map(|x| x.1),
     }
 }
